@@ -87,7 +87,8 @@ def form_of(text, a):
 def value_for(a, rng):
     ty = a["type"]
     if a["bit"] is not None:
-        return rng.random() < 0.5
+        # a bit is written from a truth value: True / False, and as often 1 / 0 (what a caller holding an integer passes)
+        return rng.choice([True, False, 1, 0])
 
     def one():
         if ty == "F":
